@@ -27,7 +27,7 @@ RULE = ("one case = one call of one filter on a particle list of 1..60 rows (tho
         "or repeated at random (mask: repeated inside a tomogram only on rows that share their voxel - verbatim copies and re-picked rows with other shifts/angles, see ASSUMPTIONS). "
         "oob: per-tomogram dimensions (different per tomogram, unsorted, extra/duplicate/missing rows; 8..128 voxels, realistic extents up to 4096 and, for large boxes, "
         "volumes around twice the half box; 4 % with a half-voxel extent) handed over as float ndarray / int ndarray / labelled DataFrame / UNLABELLED DataFrame / text file / "
-        "flat list / 1-D array, boundary 'center'/'whole' with box 1..64 incl. every residue mod 4 and realistic boxes 65..260 (96, 97, 128, 129, 200, 201, 256 ...) "
+        "nested list / nested tuple / flat list / flat tuple / 1-D array, boundary 'center'/'whole' with box 1..64 incl. every residue mod 4 and realistic boxes 65..260 (96, 97, 128, 129, 200, 201, 256 ...) "
         "(plus refused calls: unknown type, box missing/0), every axis of every particle drawn from {deep inside, exactly on the lower face, "
         "just below it (1, 1/2, 1/1024), negative, 0, just below / exactly on / just beyond the upper face, far beyond}, non-zero shifts; "
         "trim: integer trim boxes (list / tuple / ndarray, int or float dtype), x,y,z on / next to both faces, shifts that must be ignored; "
@@ -898,7 +898,8 @@ def gen_oob(rng, tier):
         return [d for d in dr if missing is None or d[0] != _i(missing)]
 
     dim_rows = table(dims)
-    forms = ["ndarray", "dataframe", "ndarray", "dataframe", "file", "dataframe-unlabelled", "ndarray-int"] + (["list", "ndarray1d"] if len(dim_rows) == 1 else [])
+    forms = ["ndarray", "dataframe", "ndarray", "dataframe", "file", "dataframe-unlabelled", "ndarray-int", "nested-list", "nested-tuple"] \
+        + (["list", "ndarray1d", "tuple"] if len(dim_rows) == 1 else [])
     case = dict(op="oob", scale=SCALE, rows=rows, dims=dim_rows, bt=bt, box=box, variant=variant, dims_as=rng.choice(forms))
     if bt == "center" and rng.random() < 0.6:
         case["omit"] = ["boundary_type"]
@@ -1282,6 +1283,12 @@ class _Args:
                 self._write_dims(arr)
             elif form == "list":
                 self.dims = arr[0].tolist()
+            elif form == "tuple":
+                self.dims = tuple(arr[0].tolist())
+            elif form == "nested-list":  # the N x 4 table as a list of rows
+                self.dims = arr.tolist()
+            elif form == "nested-tuple":
+                self.dims = tuple(tuple(r) for r in arr.tolist())
             elif form == "ndarray1d":
                 self.dims = arr[0].copy()
             else:
@@ -1365,6 +1372,12 @@ class _Args:
                 self._write_dims(arr)
             elif self.form == "list":
                 self.dims[:] = arr[0].tolist()
+            elif self.form == "tuple":
+                self.dims = tuple(arr[0].tolist())  # immutable: the caller builds a new one
+            elif self.form == "nested-list":
+                self.dims[:] = arr.tolist()
+            elif self.form == "nested-tuple":
+                self.dims = tuple(tuple(r) for r in arr.tolist())
             elif self.form == "ndarray1d":
                 self.dims[:] = arr[0]
             elif self.form == "ndarray-int" and not bool(np.all(arr == np.round(arr))):
